@@ -98,9 +98,13 @@ impl BlobWriter {
 
         // Check if chunk already exists (deduplication)
         if self.store.exists(&chunk_key) {
+            #[cfg(neumann_verif)]
+            tensor_store::verif_hooks::yield_point("blob.chunk.rmw");
             // Increment reference count
             increment_chunk_refs(&self.store, &chunk_key)?;
         } else {
+            #[cfg(neumann_verif)]
+            tensor_store::verif_hooks::yield_point("blob.chunk.rmw");
             // Store new chunk
             let mut tensor = TensorData::new();
             tensor.set(
